@@ -298,7 +298,7 @@ cdef class CJokerHelper:
 
     cdef double make_bBBinv(self):
         cdef:
-            int i, j, n, m
+            int i, j, n, m, lwork
             int info = 0
             double log_det_val
 
@@ -327,20 +327,6 @@ cdef class CJokerHelper:
 
                 self.Btmp[n, m] = self.B[n, m]
 
-        # Compute Binv using A and the Woodbury matrix identity:
-        # Binv = Cinv + Cinv @ M @ A @ M.T @ Cinv
-        for n in range(self.n_times):
-            self.Binv[n, n] = self.s_ivar[n]
-            for i in range(self.n_linear):
-                for m in range(self.n_times):
-                    for j in range(self.n_linear):
-                        self.Binv[n, m] -= (self.s_ivar[n] * self.M_T[i, n]
-                                            * self.A[i, j] * self.M_T[j, m]
-                                            * self.s_ivar[m])
-
-        # Binv_py = np.diag(self.ivar) - np.diag(self.ivar) @ self.M_T.T @ self.A @ self.M_T @ np.diag(self.ivar)
-        # print(np.allclose(Binv_py, np.array(self.Binv)))
-
         # LU factorization of B, used for determinant and inverse:
         lapack.dgetrf(&(self.n_times), &(self.n_times), &(self.Btmp[0, 0]),
                       &(self.n_times), &(self.ntime_ipiv)[0], &info)
@@ -353,6 +339,20 @@ cdef class CJokerHelper:
             log_det_val += log(2*pi * fabs(self.Btmp[i, i]))
         # print(np.allclose(log_det_val,
         #                   np.linalg.slogdet(2*np.pi*np.array(self.B))[1]))
+
+        # Compute Binv from the LU factors of B. (The Woodbury form
+        # Cinv - Cinv @ M @ A @ M.T @ Cinv is a difference of large numbers
+        # when M @ Lambda @ M.T dominates C and loses the digits of the chi2
+        # term of the marginal likelihood.)
+        lwork = self.n_times
+        lapack.dgetri(&(self.n_times), &(self.Btmp[0, 0]), &(self.n_times),
+                      &(self.ntime_ipiv)[0], &(self.ntime_work)[0], &lwork, &info)
+        if info != 0:
+            return INF
+
+        for n in range(self.n_times):
+            for m in range(self.n_times):
+                self.Binv[n, m] = self.Btmp[n, m]
 
         return log_det_val
 
